@@ -296,7 +296,7 @@ impl Property for C12 {
                 let check_grad = |v: &mut Verdict, what: &str, g: &[f64], exp: &BTreeMap<String, f64>, scale: f64| -> bool {
                     for (k, nm) in all_names.iter().enumerate() {
                         let e = *exp.get(nm).unwrap_or(&0.0);
-                        if (g[k] - e).abs() > 1e-10 * scale + 1e-300 {
+                        if !((g[k] - e).abs() <= 1e-10 * scale + 1e-300) {
                             v.fail(
                                 format!("{} | {}", what, if e == 0.0 { "sensitivity reported to a node outside the interval in use or under a wrong name" } else { "sensitivity differs from the derivative of the interpolation formula" }),
                                 format!("{} ({}): nodes {:?} values {:?} id '{}', query {} (interval {}): d/d{} = {:e}, expected {:e}", step_name, rule.name(), times, values, c.id, x, m.index, nm, g[k], e),
@@ -334,7 +334,7 @@ impl Property for C12 {
                         for (k1, n1) in all_names.iter().enumerate() {
                             for (k2, n2) in all_names.iter().enumerate() {
                                 let e = *exp_h.get(&(n1.clone(), n2.clone())).unwrap_or(&0.0);
-                                if (h[[k1, k2]] - e).abs() > 1e-10 * hscale + 1e-300 {
+                                if !((h[[k1, k2]] - e).abs() <= 1e-10 * hscale + 1e-300) {
                                     v.fail(
                                         "hessian differs from the second derivatives of the interpolation formula",
                                         format!("{} ({}): nodes {:?} values {:?}, query {}: d2/d{}d{} = {:e}, expected {:e}", step_name, rule.name(), times, values, x, n1, n2, h[[k1, k2]], e),
